@@ -64,6 +64,7 @@ const (
 	PrDeadlineExempt
 	PrGetHit
 	PrC05ClearExempt
+	PrSketchFreshChecked
 	NumProbes
 )
 
@@ -78,7 +79,7 @@ var ProbeNames = []string{
 	"close_with_waiter", "close_with_buffered", "expired_get_checked", "ttl_hit", "model_checks",
 	"sweep_evict_checked", "c05_checks", "exit_before_get_checked",
 	"metrics_checked", "empty_check_skipped", "empty_checked", "fresh_checked", "closed_probed",
-	"unguaranteed_collision", "deadline_exempt", "get_hit", "c05_clear_exempt",
+	"unguaranteed_collision", "deadline_exempt", "get_hit", "c05_clear_exempt", "sketch_fresh_checked",
 }
 
 var curProbes [NumProbes]int
